@@ -80,4 +80,33 @@ pub uninterp spec fn s_joined(path: Seq<String>) -> Seq<char>;
 #[verifier::external_body]
 pub fn join_path_tail(path: &Vec<String>) -> (r: String) ensures r@ == s_joined(path@) { unimplemented!() }
 
+// ---- Item::process_before_codegen / <Item as CodeGenerator>::codegen
+#[verifier::external_body] pub struct ItemSet { _p: core::marker::PhantomData<()> }
+impl ItemSet {
+    pub uninterp spec fn s_contains(&self, id: ItemId) -> bool;
+    #[verifier::external_body] pub fn contains(&self, id: &ItemId) -> (r: bool) ensures r == self.s_contains(*id) { unimplemented!() }
+}
+impl BindgenContext {
+    pub uninterp spec fn s_codegen_items(&self) -> ItemSet;
+    #[verifier::external_body] pub fn codegen_items(&self) -> (r: &ItemSet) ensures *r == self.s_codegen_items() { unimplemented!() }
+}
+// the generated items and the set of items already handled
+pub struct CodegenResult { pub items: Vec<usize>, pub seen_items: Ghost<Set<ItemId>> }
+impl CodegenResult {
+    #[verifier::external_body] pub fn seen(&self, id: ItemId) -> (r: bool) ensures r == self.seen_items@.contains(id) { unimplemented!() }
+    #[verifier::external_body] pub fn set_seen(&mut self, id: ItemId)
+        ensures final(self).seen_items@ == old(self).seen_items@.insert(id), final(self).items@ == old(self).items@ { unimplemented!() }
+}
+impl Item {
+    pub uninterp spec fn s_enabled(&self, ctx: &BindgenContext) -> bool;
+    #[verifier::external_body] pub fn is_enabled_for_codegen(&self, ctx: &BindgenContext) -> (r: bool) ensures r == self.s_enabled(ctx) { unimplemented!() }
+    pub fn id(&self) -> (r: ItemId) ensures r == self.id { self.id }
+    pub fn kind(&self) -> (r: &ItemKind) ensures *r == self.kind { &self.kind }
+}
+// the per-kind generators: whatever they emit, they are only reached through Item::codegen
+impl Module   { #[verifier::external_body] pub fn codegen(&self, ctx: &BindgenContext, result: &mut CodegenResult, item: &Item) { unimplemented!() } }
+impl Function { #[verifier::external_body] pub fn codegen(&self, ctx: &BindgenContext, result: &mut CodegenResult, item: &Item) { unimplemented!() } }
+impl Var      { #[verifier::external_body] pub fn codegen(&self, ctx: &BindgenContext, result: &mut CodegenResult, item: &Item) { unimplemented!() } }
+impl Type     { #[verifier::external_body] pub fn codegen(&self, ctx: &BindgenContext, result: &mut CodegenResult, item: &Item) { unimplemented!() } }
+
 } // verus!
